@@ -28,6 +28,10 @@ def _any_sym(args, kwargs=None):
             for x in a:
                 if is_sym(x):
                     return True
+        if isinstance(a, dict):
+            for x in a.values():
+                if is_sym(x):
+                    return True
     if kwargs:
         for a in kwargs.values():
             if is_sym(a):
